@@ -8,4 +8,8 @@ from specs import outputasync
 def build(run):
     outputasync.verify_put(run)
     outputasync.verify_output_coro(run)
+    outputasync.verify_wrapper(run)
+    outputasync.verify_ctrl_wait(run)
+    outputasync.verify_ctrl_start(run)
+    outputasync.verify_ctrl_cancel(run)
     run.replayer('OutputAsync._output_coro/no_unexpected_raise:KeyError', lambda run_, ob, model: open('/verif/specs/replay_c12.py').read())
